@@ -396,6 +396,18 @@ def run_history(hist: list[tuple], record_release=None):
                                                            for k, s in enumerate(pr.solid.sides)])
                     del pr
                     vmf.add_brush(o)
+                elif kind == 'prism':       # the helpers that build whole brushes for the map they are called on
+                    o = vmf.make_prism(Vec(0, 0, 0), Vec(8, 8, 8)).solid
+                    vmf.add_brush(o)
+                    kind = 'solid'
+                elif kind == 'hollow':
+                    rest = vmf.make_hollow(Vec(0, 0, 0), Vec(64, 64, 64))
+                    vmf.add_brushes(rest)
+                    o = rest.pop()
+                    for r_ in rest:
+                        objs.append(['solid', r_, True])
+                    r_ = rest = None
+                    kind = 'solid'
                 elif kind == 'brushent':
                     pr = vmf.make_prism(Vec(0, 0, 0), Vec(8, 8, 8))
                     o = Entity(vmf, {'classname': 'func_detail'}, ent_id=desired, solids=[pr.solid])
@@ -449,7 +461,7 @@ def run_history(hist: list[tuple], record_release=None):
                 from srctools import instancing
                 from srctools.math import Matrix
                 inst = instancing.Instance('inst', '', Vec(16 * ev[1], 0, 0), Matrix())
-                instancing.collapse_one(vmf2, inst, instancing.InstanceFile(vmf), visgroup=bool(ev[2]))
+                instancing.collapse_one(vmf2, inst, instancing.InstanceFile(vmf), visgroup=vmf2.vis_tree[0] if ev[2] == 2 else bool(ev[2]))
                 del inst
             elif op == 'remove':
                 k = ev[1] % len(objs) if objs else None
@@ -512,7 +524,7 @@ def gen_history(rng: random.Random, n: int, kinds) -> list[tuple]:
         elif r < 0.50:
             h.append(('xcopy', rng.randint(0, 9)))
         elif r < 0.53:
-            h.append(('collapse', rng.randint(0, 3), rng.randint(0, 1)))
+            h.append(('collapse', rng.randint(0, 3), rng.randint(0, 2)))     # visgroup=False / True / a VisGroup of the destination
         elif r < 0.70:
             h.append(('remove', rng.randint(0, 9)))
         elif r < 0.80:
@@ -605,7 +617,8 @@ def search_lifecycle(ck: Ck) -> None:
             hist = CORPUS_HIST[i]
         else:
             kinds = ck.rng.choice([['ent'], ['solid'], ['ent', 'brushent', 'solid'], ['node', 'ent'], ['group', 'vis', 'vischild', 'ent'],
-                                   ['ent', 'solid', 'brushent', 'node', 'group', 'vis', 'vischild']])
+                                   ['solid', 'prism', 'hollow', 'brushent'],
+                                   ['ent', 'solid', 'brushent', 'node', 'group', 'vis', 'vischild', 'prism']])
             hist = gen_history(ck.rng, ck.rng.choice([4, 8, 16, 30]), kinds)
         ck.count('lifecycle_histories')
         for e in hist:
@@ -1113,16 +1126,29 @@ def gen_world_case(rng: random.Random, n_ev: int, parse_prog: list[str] | None =
         from srctools import instancing
         from srctools.math import Matrix
         s, dest = rng.sample(range(3), 2)
-        keep_vis = rng.random() < 0.4       # visgroup=True: the visgroup trees of the instance map are copied as well
+        keep_vis = rng.random() < 0.45      # visgroup=True: the visgroup trees of the instance map are copied as well
+        # visgroup=<VisGroup of the destination map>: the copied trees become children of that visgroup (and brushes / entities
+        # keep their visibility as with True)
+        parent = None
+        if keep_vis and rng.random() < 0.7:
+            cands = [t for t in gtops if t['kind'] == 'vis' and t['obj'] is not None and t['home'] == dest and t['inmap']]
+            parent = rng.choice(cands) if cands else None
         nb0, ne0, nv0 = len(maps[dest].brushes), len(maps[dest].entities), len(maps[dest].vis_tree)
+        nc0 = len(parent['obj'].child_groups) if parent else 0
         vsrcs = list(maps[s].vis_tree)
         inst = instancing.Instance('inst', '', Vec(16, 0, 0), Matrix())
-        instancing.collapse_one(maps[dest], inst, instancing.InstanceFile(maps[s]), visgroup=keep_vis)
+        instancing.collapse_one(maps[dest], inst, instancing.InstanceFile(maps[s]), visgroup=parent['obj'] if parent else keep_vis)
         new_b, new_e = maps[dest].brushes[nb0:], maps[dest].entities[ne0:]
         news = new_b + new_e
-        for vo, vc in zip(vsrcs, maps[dest].vis_tree[nv0:]):
+        new_v = parent['obj'].child_groups[nc0:] if parent else maps[dest].vis_tree[nv0:]
+        for vo, vc in zip(vsrcs, new_v):
             gt = next(t for t in gtops if t['obj'] is vo)
-            gtops.append({'kind': 'vis', 'obj': vc, 'tree': track_vis_copy(gt['tree'], vc, dest, -1), 'home': dest, 'inmap': True})
+            tree = track_vis_copy(gt['tree'], vc, dest, -1)
+            if parent:
+                parent['tree'][1].append(tree)      # from now on part of the parent's tree (copied / unlisted with it)
+            else:
+                gtops.append({'kind': 'vis', 'obj': vc, 'tree': tree, 'home': dest, 'inmap': True})
+        vo = vc = None
         # which source a new object was copied from is read from the tables collapse_one fills in (old ID -> new ID)
         back_b = {new: old for old, new in inst.brush_ids.items()}
         back_e = {new: old for old, new in inst.ent_ids.items()}
@@ -1134,7 +1160,7 @@ def gen_world_case(rng: random.Random, n_ev: int, parse_prog: list[str] | None =
                 nest_flag.append('collapse_one produced an object whose source is not a tracked top-level object')
                 continue
             tops.append(track_top_copy(t, c, dest, -1, True))
-        desc.append(('collapse', s, dest, len(news), len(srcs), keep_vis, len(maps[dest].vis_tree) - nv0))
+        desc.append(('collapse', s, dest, len(news), len(srcs), 'into-visgroup' if parent else keep_vis, len(new_v)))
         tev.append(f'TCollapse {s}%nat {dest}%nat {"true" if keep_vis else "false"}')
 
     def hide_event():
@@ -1304,6 +1330,8 @@ def corr_world(ck: Ck, parse_prog: list[str] | None = None) -> None:
         ck.count('world_histories')
         for d in desc:
             ck.hist('world_events', d[0])
+            if d[0] == 'collapse':
+                ck.hist('world_collapse_visgroup', str(d[5]))
         ck.hist('world_maps_parsed', sum(d[0] == 'parse' for d in desc))
         if any(d[0] in ('collapse', 'parse') or (d[0] in ('copy', 'gcopy') and d[4]) for d in desc):
             ck.seen(('world', tuple(desc)))
@@ -1801,7 +1829,7 @@ def gen_vmf_doc(rng: random.Random, small: bool = False):
     return ''.join(out), want, (wd if wd is not None and wd >= 0 else -1)
 
 
-def corr_parse(ck: Ck) -> None:
+def corr_parse(ck: Ck, parse_prog: list[str] | None = None) -> None:
     """VMF.parse of documents with colliding / missing / non-positive IDs against the model's WParse, per kind."""
     from harness.common import parse_coq_N_list
     from srctools.vmf import VMF
@@ -1811,10 +1839,13 @@ def corr_parse(ck: Ck) -> None:
     for i in range(n):
         text, want, wd = gen_vmf_doc(ck.rng)
         try:
-            vmf = VMF.parse(Keyvalues.parse(text))
+            vmf, plog = observed_parse(text)
         except Exception as e:
             ck.violation('parse-exception', f'VMF.parse raised {type(e).__name__}: {e}', {'vmf_text': text})
             continue
+        # the entities constructed before the worldspawn that still exist (a placeholder that was not destroyed)
+        kept = [oid for ref, oid, _ in plog['ent'] if ref() is not None and ref() is not vmf.spawn and all(ref() is not e for e in vmf.entities)]
+        del plog
         ck.count('parsed_documents')
         sc = scan_map(vmf)
         for kind, what, vals in dup_report(sc):
@@ -1834,10 +1865,12 @@ def corr_parse(ck: Ck) -> None:
         for k, ds in want.items():
             ck.hist('parse_desired', 'missing' if not ds else 'some')
         # the placeholder worldspawn of VMF() takes ID 1 and dies when the parsed one replaces it
-        evs = {
-            'KEnt': ['WCreate 0%nat (-1)', f'WParse 0%nat [{_zs(wd)}]', 'WDestroy 0%nat',
-                     f'WParse 0%nat {coq_Z_list(want["KEnt"])}'],
-        }
+        # ... in the order of the program read from VMF.parse (the placeholder is object 0 of the entity stream)
+        step_ev = {'GPPlaceholder': 'WCreate 0%nat (-1)', 'GPWorld': f'WParse 0%nat [{_zs(wd)}]', 'GPDropPlaceholder': 'WDestroy 0%nat',
+                   'GPEntities': f'WParse 0%nat {coq_Z_list(want["KEnt"])}'}
+        evs = {'KEnt': [step_ev[st] for st in (parse_prog or ['GPPlaceholder', 'GPWorld', 'GPDropPlaceholder', 'GPEntities']) if st in step_ev]}
+        if kept:
+            got['KEnt'] = kept + got['KEnt']    # the placeholder is never destroyed: it keeps its ID
         for k in ('KSolid', 'KFace', 'KGroup', 'KVis'):
             evs[k] = [f'WParse 0%nat {coq_Z_list(want[k])}']
         for k in evs:
@@ -1898,6 +1931,66 @@ def _post_vis(lst):
 
 
 # ------------------------------------------------------------------------------------------------ main
+class ImplHang(BaseException):      # not an Exception: the `except Exception` of a history runner must not swallow it
+    pass
+
+
+STAGE_LIMIT_S = int(__import__('os').environ.get('C08_STAGE_LIMIT_S', '420'))     # (the variable is for testing the guard only)
+# a stage takes 1-15 s (thorough: up to 80 s; with budgets escalated by a broken tie up to 80 s) on a loaded machine; a fault that
+# makes the implementation loop ends here.  Once one stage has hung, the others get a minute each (a failing input is known).
+_hung: list = []
+
+
+def guarded(ck: Ck, stage: str, fn, *args) -> None:
+    """Run one stage that calls into the implementation.  A fault can make the implementation raise where it never does, or
+    loop for ever (the ID scan of IDMan.get_id, the index search of EntityFixup.__setitem__): both are failing inputs of this
+    property's histories, reported as VIOLATION with the stage and seed as replay -- not as an internal error or a hung check.
+    An exception whose traceback never enters srctools is a defect of the check itself and is passed on."""
+    import signal
+    import traceback
+
+    def on_alarm(signum, frame):
+        raise ImplHang(f'stage {stage} did not finish within {STAGE_LIMIT_S} s')
+    old = signal.signal(signal.SIGALRM, on_alarm)
+    # repeating: an alarm that goes off inside a destructor is printed and ignored by CPython, the next one gets through
+    signal.setitimer(signal.ITIMER_REAL, min(STAGE_LIMIT_S, 60) if _hung else STAGE_LIMIT_S, 5)
+    import time
+    t0 = time.time()
+    try:
+        fn(ck, *args)
+        ck.extra.setdefault('stage_seconds', {})[stage] = round(time.time() - t0, 1)
+    except ImplHang as e:
+        signal.setitimer(signal.ITIMER_REAL, 0)
+        _hung.append(stage)
+        frames = traceback.extract_tb(e.__traceback__)
+        where = next((f'{f.filename.rsplit("/", 1)[-1]}:{f.lineno} {f.name}' for f in reversed(frames) if '/srctools/' in f.filename), None)
+        if where is None:
+            raise
+        ck.obligation(f'stage-completes:{stage}', False, str(e))
+        ck.violation(f'impl-hang-{stage}', f'{e}; the implementation was executing {where}',
+                     {'stage': stage, 'seed': ck.seed, 'tier': ck.tier, 'where': where, 'how': f'checks.c08 stage {stage} with this seed'})
+        ck.explain(f'stage-completes:{stage}')
+    except Exception as e:
+        signal.setitimer(signal.ITIMER_REAL, 0)
+        frames = traceback.extract_tb(e.__traceback__)
+        inside = [f for f in frames if '/srctools/' in f.filename]
+        if not inside:
+            raise
+        where = f'{inside[-1].filename.rsplit("/", 1)[-1]}:{inside[-1].lineno} {inside[-1].name}'
+        ck.obligation(f'stage-completes:{stage}', False, f'{type(e).__name__}: {e}')
+        ck.violation(f'impl-exception-{stage}', f'the implementation raised {type(e).__name__}: {e} at {where} during a legal history',
+                     {'stage': stage, 'seed': ck.seed, 'tier': ck.tier, 'where': where, 'traceback': traceback.format_exception(type(e), e, e.__traceback__)[-6:],
+                      'how': f'checks.c08 stage {stage} with this seed'})
+        ck.explain(f'stage-completes:{stage}')
+    finally:
+        signal.setitimer(signal.ITIMER_REAL, 0)
+        signal.signal(signal.SIGALRM, old)
+        try:
+            gc.unfreeze()
+        except Exception:
+            pass
+
+
 def run(ck: Ck) -> None:
     ck.rule = ('IDMan: random operation sequences over a small ID range (collisions frequent) from IDMan(existing), non-trivial = '
                'more than 3 distinct results (thorough: in addition every sequence of up to 4 operations over 12 operations from the empty manager); lifecycle: random histories of create/copy/cross-map copy/collapse_one/remove/re-add/gc/'
@@ -1940,16 +2033,19 @@ def run(ck: Ck) -> None:
             'every_keyvalue_write_goes_through_node_registration': 'keys_writes_registered',
             'every_fixup_table_write_is_a_modelled_operation': 'fixup_writes_modelled',
             'vmf_parse_releases_no_id_itself': 'parse_releases_nothing',
+            'helpers_build_every_part_in_the_one_map_they_are_given': 'andb (forallb snd helper_ctor_sites) (negb (Nat.eqb (length helper_ctor_sites) 0))',
+            'maps_get_idman_unless_preserve_ids': 'managers_are_idman_unless_preserve_ids',
             'no_unclassified_release_site': 'forallb (fun x : kind * site * String.string => match snd (fst x) with SOther => false | _ => true end) release_sites',
         })
-        corr_idman(ck)
-        corr_fixups(ck, bool(side.get('fixup_init_requires_positive')), bool(side.get('fixup_init_defers', True)))
+        prog = [r[0] for r in side.get('parse_program', [])] or None
+        guarded(ck, 'idman', corr_idman)
+        guarded(ck, 'fixup', corr_fixups, bool(side.get('fixup_init_requires_positive')), bool(side.get('fixup_init_defers', True)))
         ror = any(r[0] == 'KEnt' and r[1] != 'SDel' for r in side.get('releases', []))
-        corr_lifecycle(ck, ror)
-        corr_world(ck, [r[0] for r in side.get('parse_program', [])] or None)
-        corr_nodes(ck)
-        corr_parse(ck)
-    search_lifecycle(ck)
+        guarded(ck, 'lifecycle', corr_lifecycle, ror)
+        guarded(ck, 'world', corr_world, prog)
+        guarded(ck, 'node', corr_nodes)
+        guarded(ck, 'parse', corr_parse, prog)
+    guarded(ck, 'search', search_lifecycle)
     # Failed obligations are explained when the search exhibits a concrete history of the corresponding class.
     keys = {v['key'] for v in ck.violations}
 
